@@ -19,6 +19,9 @@ Full structural decision (taint/dominance on the two resolver functions):
               (exists / is_file / resolve / stat) sit inside ``try ... except OSError``; every
               ``raise`` raises TemplateNotFoundError; the loop falls through to
               ``raise TemplateNotFoundError``.
+  C22-CONFIG  every option the resolver reads is stored by the base constructor under its own
+              name, and every subclass constructor (the caching variants) that accepts an
+              option of that name forwards it unchanged to the base constructor.
 Trusted: pathlib / importlib.resources semantics (joinpath of a relative path without
 '..' stays below its base; exists/is_file swallow ValueError for NUL bytes).
 """
@@ -177,7 +180,7 @@ def _check_resolver(repo, res, fq):
 
 def run(repo: Repo) -> Result:
     res = Result(PID)
-    res.rules = ["C22-GUARD", "C22-SYMLINK", "C22-READ", "C22-TOTAL"]
+    res.rules = ["C22-GUARD", "C22-SYMLINK", "C22-READ", "C22-TOTAL", "C22-CONFIG"]
     res.explanation = "taint/dominance: traversal guards dominate every join of a name-derived path onto a search directory; only not-found escapes the resolvers"
     res.assumptions = [
         "pathlib/importlib.resources: a relative path without '..' joined to a base stays below it",
@@ -270,6 +273,63 @@ def run(repo: Repo) -> Result:
                         if not (isinstance(src, ast.Name) and src.id in safe):
                             res.add("C22-READ", f.qual, f"executor:{text(call)[:30]}", f"{f.qual}: `{text(call)[:60]}` reads a path that did not come from self.{resolver}", f.file, call.lineno)
             res.sample({"rule": "C22-READ", "function": f.qual, "resolved_vars": sorted(safe)})
+    # ---- C22-CONFIG -------------------------------------------------------------
+    # "cached or not": the confinement options a loader's resolver reads (search path, ext,
+    # reject_symlinks, package paths ...) must reach it — the base constructor stores every
+    # option under its own name, and every subclass constructor that takes an option of the same
+    # name hands it on to the base constructor under that name.
+    for base_q, resolver in ((FS, "resolve_path"), (PK, "_resolve_path")):
+        base = repo.cls(base_q)
+        init = base.methods.get("__init__")
+        if init is None:
+            raise AnchorMissing(f"{base_q}.__init__ not found")
+        bparams = [p for p in init.params() if p != "self"]
+        rs = repo.own_method(base_q, resolver)
+        read_attrs = {n.attr for n in ast.walk(rs.node) if isinstance(n, ast.Attribute) and is_name(n.value, "self") and isinstance(n.ctx, ast.Load)}
+        stores = {}
+        for st in walk_no_nested(init.node):
+            if isinstance(st, ast.Assign) and len(st.targets) == 1 and isinstance(st.targets[0], ast.Attribute) and is_name(st.targets[0].value, "self"):
+                stores[st.targets[0].attr] = st.value
+        for p in bparams:
+            if p in read_attrs or p in stores:
+                res.ob(f"config:{base.name}.{p}")
+                v = stores.get(p)
+                if v is None or p not in names_in(v):
+                    res.add("C22-CONFIG", init.qual, f"store:{p}", f"{init.qual} does not store its `{p}` option as self.{p} (found `{text(v)[:40] if v is not None else 'nothing'}`), which {resolver} reads", init.file, init.line)
+        for c in repo.subclasses(base_q, strict=True):
+            ci = c.methods.get("__init__")
+            if ci is None:
+                continue
+            cparams = [p for p in ci.params() if p != "self"]
+            fwd = [call for call in calls(ci.node) if callee_name(call) == "__init__" and isinstance(call.func, ast.Attribute) and (text(call.func.value) == base.name or (isinstance(call.func.value, ast.Call) and is_name(call.func.value.func, "super")))]
+            # the call that reaches the base constructor: an explicit Base.__init__(self, ...) wins
+            explicit = [call for call in fwd if text(call.func.value) == base.name]
+            target = explicit[0] if explicit else (fwd[0] if fwd else None)
+            for p in bparams:
+                if p not in cparams:
+                    continue
+                res.ob(f"config:{c.name}.{p}")
+                if target is None:
+                    res.add("C22-CONFIG", ci.qual, f"forward:{p}:no-base-init", f"{ci.qual} takes `{p}` but never calls {base.name}.__init__", ci.file, ci.line)
+                    continue
+                args = list(target.args)
+                if explicit and args and is_name(args[0], "self"):
+                    args = args[1:]
+                passed = None
+                for k in target.keywords:
+                    if k.arg == p:
+                        passed = k.value
+                if passed is None and bparams.index(p) < len(args):
+                    passed = args[bparams.index(p)]
+                if passed is None or not is_name(passed, p):
+                    res.add(
+                        "C22-CONFIG",
+                        ci.qual,
+                        f"forward:{p}",
+                        f"{ci.qual} accepts `{p}` but passes `{text(passed) if passed is not None else 'nothing'}` for it to {base.name}.__init__: the {c.name} variant silently runs with the default (for reject_symlinks: symlinks out of the search path are followed)",
+                        ci.file,
+                        target.lineno,
+                    )
     rd = repo.own_method(FS, "_read")
     res.ob(rd.qual)
     p = [x for x in rd.params() if x != "self"][0]
